@@ -13,9 +13,17 @@ from vlib import *
 K = 24  # keys per world (each replayed history gets its own key)
 ADMIN_IP = "10.0.0.1"
 IPS = {"listed": ADMIN_IP, "unlisted": "10.9.9.9", "none": ""}
+NEAR_IPS = ["10.0.0.10", "10.0.0.11", "10.0.0.100", "10.0.0.12", "10.0.0.19"]     # not listed; the text begins with the listed entry
+
+
+def ip_of(cls, rid):
+    if cls == "near":
+        import zlib
+        return NEAR_IPS[zlib.crc32(rid.encode()) % len(NEAR_IPS)]
+    return IPS[cls]
 
 BASE = dict(MaxI=2, EpochGuard=True, ZeroIsNone=False, TargetGE=False, SourceChecked=True, SourceStrict=False,
-            PropGE=False, GenesisRule=True, DeniedKeepsState=True, GenericDeniesSlashable=True, AttestChecksDomain=True, ExitIPCheck=True)
+            PropGE=False, GenesisRule=True, DeniedKeepsState=True, GenericDeniesSlashable=True, AttestChecksDomain=True, ExitIPCheck="exact")
 SEQ_EXTRA = dict(Roots={"A", "B"}, AttDoms={"att", "other"}, PropDoms={"prop", "other"},
                  GenDoms={"att", "prop", "exit", "randao"}, Kinds={"att", "prop"})
 
@@ -30,7 +38,7 @@ PROPS = {
                 mutants=[("SourceStrict", True), ("GenesisRule", False), ("DeniedKeepsState", False)],
                 trace_inv=["AdvancingSigned"]),
     "C05": dict(kinds={"att", "prop"}, inv=["RoutedByDomain"], props=[],
-                mutants=[("GenericDeniesSlashable", False), ("AttestChecksDomain", False), ("ExitIPCheck", False)],
+                mutants=[("GenericDeniesSlashable", False), ("AttestChecksDomain", False), ("ExitIPCheck", "none"), ("ExitIPCheck", "prefix")],
                 trace_inv=["Routed"]),
 }
 
@@ -244,7 +252,7 @@ class Builder:
                     op = dict(id=rid, kind="prop", by=st.get("by", "name"), dom=st.get("dom", "prop"),
                               ents=[dict(k=l["k"], slot=st["slot"], root=st.get("root", "A"))])
                 elif st["op"] in ("gen", "multi"):
-                    op = dict(id=rid, kind=st["op"], dom=st["dom"], ip=IPS[st.get("ip", "none")],
+                    op = dict(id=rid, kind=st["op"], dom=st["dom"], ip=ip_of(st.get("ip", "none"), rid),
                               ents=[dict(k=l["k"], root=st.get("root", "A"))] * (1 if st["op"] == "gen" else 1))
                 else:
                     continue
@@ -678,6 +686,49 @@ def run(prop, tier, seed):
                 nreq += sum(1 for e in pby[sc_["id"]] if e["ev"] == "Respond")
             nsc += len(par_scs)
             race["parallel_clients"] = dict(scenarios=len(par_scs), keys=nk, requests=sum(1 for e in pev if e["ev"] == "Respond"), releases=sum(1 for e in pev if e["ev"] == "Release"))
+        conc_adv = None
+        if prop == "C09":
+            # "... is signed": also when well-formed requests OVERLAP IN TIME.  Rounds of two batches over the same keys in different
+            # orders, sent at the same moment; the higher one (H: target above the lower one's, same source) exceeds everything signed
+            # before and everything signed beside it, so it must be signed whatever the interleaving (the lower one, L, may lose the
+            # race and is not judged).  A round that is never answered is reported from the lock / goroutine evidence as in C15.
+            import concfamily
+            nk, rounds = 4, 7
+            cconc = concretisations(2 * rounds + 2, seed, 0)[0][1]
+            cscs, cmeta = [], {}
+            orders = [([0, 1, 2, 3], [3, 2, 1, 0]), ([0, 1], [1, 0]), ([0, 2, 1], [1, 2, 0]), ([2, 3, 0, 1], [0, 1, 2, 3]), ([1, 3], [3, 1]), ([0, 1, 2], [2, 0, 1])]
+            for ci in range(6 if tier == "quick" else 40):
+                ops, meta_ = [], {}
+                for r_ in range(rounds):
+                    lo, ho = orders[(ci + r_) % len(orders)]
+                    L = dict(id="c%dr%dL" % (ci, r_), kind="atts", by=("name", "key")[(ci + r_) % 2], ents=[dict(k=k_, s=2 * r_, t=2 * r_ + 1, root="A") for k_ in lo])
+                    H = dict(id="c%dr%dH" % (ci, r_), kind="atts", by=("key", "name")[(ci + r_) % 2], ents=[dict(k=k_, s=2 * r_, t=2 * r_ + 2, root="B") for k_ in ho])
+                    extra = [dict(id="c%dr%dP" % (ci, r_), kind="prop", ents=[dict(k=lo[0], slot=r_ + 1, root="A")])] if r_ % 2 else []
+                    ops.append(dict(id="round%d" % r_, kind="par", gate=False, ops=[L, H] + extra))
+                    meta_[L["id"]] = dict(wf=False, ip="none")
+                    meta_[H["id"]] = dict(wf=True, ip="none")
+                    for x_ in extra:
+                        meta_[x_["id"]] = dict(wf=True, ip="none")
+                sid_ = "C09-overlap-%d" % ci
+                cscs.append(dict(id=sid_, world=dict(nkeys=nk), conc=cconc, ops=ops))
+                cmeta[sid_] = meta_
+            cev, cdead, cstuck = concfamily.drive(cscs, wd, tag="overlap")
+            for sid_, evs_ in cdead:
+                sc_ = [x_ for x_ in cscs if x_["id"] == sid_][0]
+                verdict.violation("AdvancingSigned:never-answered:" + sid_, "well-formed, advancing batches sent at the same time over the same keys in different orders are never "
+                                  "answered in %s (their goroutines wait on each other)" % sid_, dict(scenario=sc_, meta={}, floors=[], trace=evs_[-40:], invariant="AdvancingSigned", overlap=True))
+            if cstuck and not cdead:
+                raise Inconclusive("overlapping batches: watchdog fired without blocked-in-Lock evidence in %s" % cstuck[:3])
+            dead_ids = {d_[0] for d_ in cdead}
+            for sc_ in cscs:
+                if sc_["id"] in cev and sc_["id"] not in dead_ids and any(e["ev"] == "End" for e in cev[sc_["id"]]):
+                    start = len(lines) + 1
+                    project_one(sc_["id"], cmeta[sc_["id"]], [], cev[sc_["id"]], lines)
+                    index.append((start, len(lines), sc_["id"]))
+                    nreq += sum(1 for e in cev[sc_["id"]] if e["ev"] == "Respond")
+            nsc += len(cscs)
+            conc_adv = dict(scenarios=len(cscs), rounds_each=rounds, never_answered=sorted(dead_ids))
+            overlap_scs = cscs
         ok, violated, pos, r = validate(lines, p["trace_inv"], maxi, wd)
         info["states"] += r.distinct
         info["transitions"] += r.generated
@@ -694,7 +745,7 @@ def run(prop, tier, seed):
                 for s in b.scenarios:
                     if s["id"] == sid:
                         sc, smeta, sfloors = s, b.meta[sid], b.expect[sid]["floors"]
-            for s in race_scs + fault_scs + dup_scs + mix_scs + (par_scs if prop in ('C01', 'C02') else []):
+            for s in race_scs + fault_scs + dup_scs + mix_scs + (par_scs if prop in ('C01', 'C02') else []) + (overlap_scs if prop == "C09" else []):
                 if s["id"] == sid:
                     sc, smeta, sfloors = s, {}, []
             if binary and sid in remote_lookup:
